@@ -140,11 +140,11 @@ def handle : List String → String
     | none => "bad-op"
   | ["p2sh", sig, pk] =>
     match hexToList? sig, hexToList? pk with
-    | some sig, some pk => toString (getPreciseSigOpCount sig pk)
+    | some sig, some pk => toString (p2shSigOps sig pk)
     | _, _ => "bad-op"
   | ["wsig", sig, pk, wit] =>
     match hexToList? sig, hexToList? pk, parseList "." hexToList? wit with
-    | some sig, some pk, some wit => toString (getWitnessSigOpCount sig pk wit)
+    | some sig, some pk, some wit => toString (witnessSigOps sig pk wit)
     | _, _, _ => "bad-op"
   | ["cost", tx, cb, bip16, segwit, utxos] =>
     match parseTx? tx, parseBool? cb, parseBool? bip16, parseBool? segwit, parseList "," parseUtxo? utxos with
@@ -167,14 +167,7 @@ def handle : List String → String
         parseList "," parseLockIn? ins with
     | some act, some ver, some cb, some ts, some ins =>
       if ts = [] then "bad-op" else
-      let nodeHeight : Int := (ts.length : Int) - 1
-      let lis := ins.map (fun (p : Nat × Option Int) =>
-        let h : Int := match p.2 with
-          | some h => if h = 0x7fffffff then nodeHeight + 1 else h
-          | none => 0
-        let prev := (if h - 1 < 0 then 0 else h - 1).toNat
-        (⟨p.1, p.2, medianTime (ts.take (prev + 1)).reverse⟩ : LockInput))
-      match calcSequenceLock act ver cb nodeHeight lis with
+      match calcSequenceLockChain act ver cb ts ins with
       | .ok s h => s!"{s},{h}"
       | .missing => "err:missing"
     | _, _, _, _, _ => "bad-op"
